@@ -507,6 +507,86 @@ Qed.
 Lemma rrun_ginvr ops : forall s, Forall GInvR (r_gauges s) -> Forall GInvR (r_gauges (rrun s ops)).
 Proof. induction ops as [|o ops IH]; intros s H; cbn; [assumption|]. apply IH. apply rapply_ginvr. assumption. Qed.
 
+(* ---------------- the life of one gauge ---------------- *)
+Lemma firstn_snoc {A} (l : list A) : forall n a, nth_z l n = Some a -> firstn (S n) l = firstn n l ++ [a].
+Proof.
+  induction l as [|x l IH]; intros n a H; [destruct n; discriminate|].
+  destruct n as [|n]; cbn [nth_z] in H.
+  - injection H as <-. reflexivity.
+  - cbn [firstn app]. f_equal. apply IH. exact H.
+Qed.
+
+Lemma zsum_app a b : zsum (a ++ b) = zsum a + zsum b.
+Proof. induction a as [|x a IH]; cbn [app zsum]; lia. Qed.
+
+Lemma alloc_sum_step sp k a : 0 <= k -> nth_z sp (Z.to_nat k) = Some a -> alloc_sum sp (k + 1) = alloc_sum sp k + a.
+Proof.
+  intros Hk H. unfold alloc_sum. replace (Z.to_nat (k + 1)) with (S (Z.to_nat k)) by lia.
+  rewrite (firstn_snoc _ _ _ H), zsum_app. cbn [zsum]. lia.
+Qed.
+
+Lemma alloc_sum_le sp k : Forall (fun x => 0 <= x) sp -> alloc_sum sp k <= zsum sp.
+Proof.
+  unfold alloc_sum. generalize (Z.to_nat k) as n. intros n H. revert n.
+  induction H as [|x l Hx Hl IH]; intros n; [destruct n; cbn; lia|].
+  destruct n; cbn [firstn zsum]; [|specialize (IH n); lia].
+  assert (0 <= zsum l) by (clear IH; induction Hl; cbn [zsum]; lia). lia.
+Qed.
+
+Lemma nth_z_lt {A} (l : list A) : forall n, (n < length l)%nat -> exists a, nth_z l n = Some a.
+Proof.
+  induction l as [|x l IH]; intros n H; cbn [length] in H; [lia|].
+  destruct n; cbn [nth_z]; [eauto|]. apply IH. lia.
+Qed.
+
+Definition LInv (dep n bal0 : Z) (sp : list Z) (st : gauge * Z * Z) : Prop :=
+  let '(g, bal, acc) := st in
+  g_deposit g = dep /\ g_total g = n /\ 0 <= g_triggered g <= n /\
+  0 <= acc <= g_distributed g /\ g_distributed g <= alloc_sum sp (g_triggered g) /\ bal = bal0 - acc /\ 0 <= bal.
+
+Lemma life_step_inv dep n bal0 sp st ev : split dep n = Ok sp -> zlen sp = n ->
+  LInv dep n bal0 sp st -> LInv dep n bal0 sp (life_step st ev).
+Proof.
+  intros Hs Hl. destruct st as [[g bal] acc]. unfold LInv, life_step. intros (A & B & C & D & F & G & H).
+  destruct (trigger (fst ev) (snd ev) bal g) as [[[g' bal'] paid]| |] eqn:Et; [|repeat split; lia|repeat split; lia].
+  apply trigger_spec in Et. destruct Et as (D1 & D2 & D3 & D4 & D5 & D6 & D7). cbv zeta in D7.
+  destruct D7 as (P1 & P2 & P3 & P4).
+  destruct P4 as [(Q1 & Q2 & Q3)|(Q1 & Q2 & Q3 & Q4 & Q5 & Q6)].
+  - rewrite Q1. repeat split; lia.
+  - assert (Hlt : (Z.to_nat (g_triggered g) < length sp)%nat) by (unfold zlen in Hl; lia).
+    destruct (nth_z_lt sp _ Hlt) as [a Ha].
+    assert (Ea : epoch_allocation g = a) by (unfold epoch_allocation; rewrite A, B, Hs, Ha; reflexivity).
+    rewrite Q1, (alloc_sum_step sp (g_triggered g) a (proj1 C) Ha). repeat split; lia.
+Qed.
+
+Lemma gauge_life dep n start dur denom sp evs bal0 :
+  1 <= n -> n <= dep -> split dep n = Ok sp -> 0 <= bal0 ->
+  let '(g, bal, acc) := fold_left life_step evs (fresh_gauge dep n start dur denom, bal0, 0) in
+  0 <= acc <= g_distributed g /\ g_distributed g <= alloc_sum sp (g_triggered g) /\
+  alloc_sum sp (g_triggered g) <= dep /\ 0 <= g_triggered g <= n /\ bal = bal0 - acc /\ g_deposit g = dep.
+Proof.
+  intros Hn Hd Hs Hb.
+  destruct (split_spec dep n Hn Hd) as (sp' & Hs' & Hsum & Hlen & Hel). rewrite Hs in Hs'. injection Hs' as <-.
+  assert (Hnn : Forall (fun x => 0 <= x) sp).
+  { eapply Forall_impl; [|exact Hel]. cbn. intros x Hx. assert (0 <= dep / n) by (apply Z.div_pos; lia). lia. }
+  assert (HI : LInv dep n bal0 sp (fresh_gauge dep n start dur denom, bal0, 0)).
+  { unfold LInv, fresh_gauge, alloc_sum. cbn. repeat split; lia. }
+  revert HI. generalize (fresh_gauge dep n start dur denom, bal0, 0) as st.
+  induction evs as [|ev evs IH]; intros st HI; cbn [fold_left].
+  - destruct st as [[g bal] acc]. destruct HI as (A & B & C & D & F & G & H).
+    pose proof (alloc_sum_le sp (g_triggered g) Hnn). repeat split; lia.
+  - apply IH. apply life_step_inv; assumption.
+Qed.
+
+(* an exhausted gauge pays nothing more *)
+Lemma trigger_exhausted now calc bal g g' bal' paid : g_triggered g = g_total g ->
+  trigger now calc bal g = Ok (g', bal', paid) -> paid = [] /\ bal' = bal /\ g_distributed g' = g_distributed g /\ g_triggered g' = g_triggered g.
+Proof.
+  intros He Et. apply trigger_spec in Et. destruct Et as (D1 & D2 & D3 & D4 & D5 & D6 & D7). cbv zeta in D7.
+  destruct D7 as (P1 & P2 & P3 & P4). destruct P4 as [(Q1 & Q2 & Q3)|(Q1 & Q2 & Q3 & Q4 & Q5 & Q6)]; [|contradiction].
+  subst paid. cbn in P2. repeat split; try lia.
+Qed.
+
 (* ---------------- epochs ---------------- *)
 (* a tick never moves the epoch start beyond now, and a trigger advances exactly one epoch *)
 Lemma epoch_tick_spec now e e' r : 0 < e_dur e -> epoch_tick now e = (e', r) ->
